@@ -299,6 +299,29 @@ func suiteScript(tier string, seed uint64, model string) *Report {
 		}
 	}
 	rep.Distinct = len(distinct)
-	rep.Rule = "matrix: 16 binary operators x 16x16 operand kinds (nil, bools, ints, floats incl. integral ones, strings, arrays, objects) supplied through @.l/@.r, plus constant right operands, missing left/right paths and Nothing; random: seeded nested equations (depth <= 3, sub-paths yielding zero, one or many values, length/count, in-lists) on seeded trees; Script.Match vs the extracted script_match, and Match vs filter membership; non-trivial = distinct cases the specification says match"
+	// directed: Go values of comparable-looking kinds that hold slices or maps never make an
+	// evaluation panic, and == / != stay complements
+	{
+		type hs struct{ L []int }
+		type hm struct{ M map[string]int }
+		vals := []any{hs{[]int{1}}, hm{map[string]int{"a": 1}}, [2][]int{{1}, {2}}, &hs{[]int{1}}, []hs{{[]int{1}}}}
+		for _, a := range vals {
+			for _, b := range vals {
+				d := map[string]any{"a": a, "b": b, "l": []any{a, b}}
+				res := map[string]string{}
+				for _, sc := range []string{"(@.a == @.b)", "(@.a != @.b)", "(@.a in @.l)", "(@.a < @.b)"} {
+					rep.Evaluations++
+					res[sc] = safe(func() string { return fmt.Sprint(jp.MustNewScript(sc).Match(d)) })
+					if strings.HasPrefix(res[sc], "F ") {
+						rep.Add(Disagreement{Case: fmt.Sprintf("%s on a=%T b=%T", sc, a, b), Where: "Script.Match", Kind: "impl-vs-spec:script-panic", Impl: res[sc], Spec: "a truth value"})
+					}
+				}
+				if e, n := res["(@.a == @.b)"], res["(@.a != @.b)"]; !strings.HasPrefix(e, "F ") && !strings.HasPrefix(n, "F ") && e == n {
+					rep.Add(Disagreement{Case: fmt.Sprintf("a=%T b=%T", a, b), Where: "Script.Match", Kind: "impl-vs-spec:eq-neq-complement", Impl: "== gives " + e + ", != gives " + n, Spec: "complements"})
+				}
+			}
+		}
+	}
+	rep.Rule = "directed: Go structs / arrays holding slices or maps in ==, !=, in, <; matrix: 16 binary operators x 16x16 operand kinds (nil, bools, ints, floats incl. integral ones, strings, arrays, objects) supplied through @.l/@.r, plus constant right operands, missing left/right paths and Nothing; random: seeded nested equations (depth <= 3, sub-paths yielding zero, one or many values, length/count, in-lists) on seeded trees; Script.Match vs the extracted script_match, and Match vs filter membership; non-trivial = distinct cases the specification says match"
 	return rep
 }
